@@ -530,6 +530,38 @@ def equal_arrays_hash_equal(trimesh, V):
         g = trimesh.Trimesh(v + 1.0, f.copy(), process=False)
         if g.__hash__() == hs[0]:
             V.violation("DifferentArraysHashDifferent", {"vertices": v.tolist()})
+    # scene hashes: geometries holding identical arrays, edited identically between two hash reads, and
+    # one mesh registered under two names - the scene hash must still move with the bytes
+    for variant in ("twins", "same_object_twice", "twins_faces"):
+        v = np.arange(18, dtype=float).reshape(6, 3) % 5 + [[0.0, 0.5, 0.25]]
+        f = np.array([[0, 1, 2], [2, 3, 4], [3, 4, 5]])
+        a = trimesh.Trimesh(v.copy(), f.copy(), process=False)
+        b = a if variant == "same_object_twice" else trimesh.Trimesh(v.copy(), f.copy(), process=False)
+        sc = trimesh.Scene()
+        sc.add_geometry(a, node_name="na", geom_name="left")
+        sc.add_geometry(b, node_name="nb", geom_name="right", transform=trimesh.transformations.translation_matrix([9, 0, 0]))
+        h0 = sc.__hash__()
+        ext0 = np.array(sc.extents).copy()
+        if variant == "twins_faces":
+            a.faces[0] = a.faces[0][::-1]
+            b.faces[0] = b.faces[0][::-1]
+        else:
+            a.vertices[1] += [3.0, 7.0, 11.0]
+            if b is not a:
+                b.vertices[1] += [3.0, 7.0, 11.0]
+        h1 = sc.__hash__()
+        n += 1
+        fresh = trimesh.Scene()
+        fa = trimesh.Trimesh(np.array(a.vertices), np.array(a.faces), process=False)
+        fb = fa if variant == "same_object_twice" else trimesh.Trimesh(np.array(b.vertices), np.array(b.faces), process=False)
+        fresh.add_geometry(fa, node_name="na", geom_name="left")
+        fresh.add_geometry(fb, node_name="nb", geom_name="right", transform=trimesh.transformations.translation_matrix([9, 0, 0]))
+        if h1 == h0:
+            V.violation("SceneHashChangesWithGeometry", {"variant": variant, "hash": h1})
+        elif h1 != fresh.__hash__():
+            V.violation("SceneHashEqualsFreshScene", {"variant": variant})
+        elif variant != "twins_faces" and np.allclose(np.array(sc.extents), ext0):
+            V.violation("SceneValuesFollowHash", {"variant": variant})
     return n
 
 
